@@ -51,7 +51,14 @@ def scenarios(ctx):
                     out.append({"idx": i, "group": group, "git": git, "n": n, "ident": ident, "level": level,
                                 "default_hostport": False})
                     i += 1
-    # documented defaults of TACD_HOST (= identifier) and TACD_PORT (= 5001): run one after the other
+    # long but legal names (3 labels, 79 characters; OpenSSL caps a commonName at 64): http-01 and the TCP
+    # responder (a unix socket path is limited to 107 bytes by the OS, which the scratch directory alone
+    # nearly uses up, so the unix group is not given the long name)
+    long_ident = "x" * 63 + "." + "y" * 10 + ".test"
+    for group in ("http-01-echo", "tls-alpn-01-tacd-tcp"):
+        out.append({"idx": i, "group": group, "git": False, "n": 2, "ident": long_ident, "level": "global",
+                    "default_hostport": False})
+        i += 1
     out.append({"idx": i, "group": "tls-alpn-01-tacd-tcp", "git": False, "n": 2, "ident": "localhost",
                 "level": "global", "default_hostport": True})
     return out
